@@ -220,11 +220,14 @@ extern "C" void vh_c01_polynomial() {
     if (prev == 0 && deg <= 1) {                 // (degree >= 1 adds a symbolic product per element and conversion: beyond the quick budget)
       std::vector<int64_t> c64(2); a.getData(DataType::Int64, c64.data(), NDSize({2}), NDSize({0}));
       std::vector<int32_t> c32(2); a.getData(DataType::Int32, c32.data(), NDSize({2}), NDSize({0}));
+      std::vector<float> cf(2); a.getData(DataType::Float, cf.data(), NDSize({2}), NDSize({0}));          // exactly sized buffers: an over-long transfer is a memory error
+      std::vector<int8_t> c8(2); a.getData(DataType::Int8, c8.data(), NDSize({2}), NDSize({0}));
       bool same = true;
       for (int k = 0; k < 2; k++) {
         int64_t x = (k ? x1 : x0) - org;
         int64_t want = deg == 0 ? x : (int64_t)c0 + (deg > 1 ? (int64_t)c1 * x : 0) + (deg > 2 ? (int64_t)c2 * x * x : 0);
-        same = same & (c64[k] == want) & ((int64_t)c32[k] == want);
+        same = same & (c64[k] == want) & ((int64_t)c32[k] == want) & (cf[k] == (float)want);
+        if (want >= -128 && want <= 127) same = same & ((int64_t)c8[k] == want);
       }
       nixsym_assert(same, "calibrated read converted to the requested integer type (Int64, Int32)");
     }
